@@ -193,6 +193,8 @@ contract Injector.injectJobs
   ensures[C11] @plain_http_through_the_proxy_without_job_credentials result == nil ==> (forall j in cfg.ScrapeConfigs :: j.Scheme == "http" && j.HTTPClientConfig.BearerToken == ""
         && j.HTTPClientConfig.BasicAuth == nil && j.HTTPClientConfig.TLSConfig.CAFile == "" && j.HTTPClientConfig.TLSConfig.CertFile == "" && j.HTTPClientConfig.TLSConfig.KeyFile == ""
         && j.HTTPClientConfig.TLSConfig.ServerName == "" && !j.HTTPClientConfig.TLSConfig.InsecureSkipVerify)
+  ensures[C11] @every_job_scrapes_through_the_sidecar_proxy (result == nil && i.option.ProxyURL != "") ==> (forall j in cfg.ScrapeConfigs :: j.HTTPClientConfig.ProxyURL.URL != nil
+        && j.HTTPClientConfig.ProxyURL.URL.gStr == i.option.ProxyURL)
   ensures[C11] @targets_only_from_one_static_entry result == nil ==> (forall j in cfg.ScrapeConfigs :: len(j.ServiceDiscoveryConfigs) == 1 && len(j.RelabelConfigs) == 1)
   modifies github.com/prometheus/prometheus/config.ScrapeConfig.Scheme, github.com/prometheus/prometheus/config.ScrapeConfig.ServiceDiscoveryConfigs,
            github.com/prometheus/prometheus/config.ScrapeConfig.RelabelConfigs, github.com/prometheus/prometheus/config.ScrapeConfig.HTTPClientConfig:ProxyURL,
@@ -204,6 +206,8 @@ contract Injector.injectJobs
         && cfg.ScrapeConfigs[k].HTTPClientConfig.TLSConfig.CAFile == "" && cfg.ScrapeConfigs[k].HTTPClientConfig.TLSConfig.CertFile == "" && cfg.ScrapeConfigs[k].HTTPClientConfig.TLSConfig.KeyFile == ""
         && cfg.ScrapeConfigs[k].HTTPClientConfig.TLSConfig.ServerName == "" && !cfg.ScrapeConfigs[k].HTTPClientConfig.TLSConfig.InsecureSkipVerify
         && len(cfg.ScrapeConfigs[k].ServiceDiscoveryConfigs) == 1 && len(cfg.ScrapeConfigs[k].RelabelConfigs) == 1)
+  loop 1 invariant[C11] @every_job_scrapes_through_the_sidecar_proxy i.option.ProxyURL != "" ==> (forall k in 0..idx1 :: cfg.ScrapeConfigs[k].HTTPClientConfig.ProxyURL.URL != nil
+        && allocated(cfg.ScrapeConfigs[k].HTTPClientConfig.ProxyURL.URL) && cfg.ScrapeConfigs[k].HTTPClientConfig.ProxyURL.URL.gStr == i.option.ProxyURL)
 
 // two facts about "%s%s" with the constant first operand "__param_" (string concatenation; assumed, no string theory):
 // it is injective in the second operand and never yields the label name "__scheme__"
